@@ -34,6 +34,11 @@ type c05Job struct {
 	Path  string // "check" | "deliver"
 	Lag   int    // tx index lag in blocks
 	Sig   string // "" / "plain" | "prehash": how the original was signed
+	// Early > 0: phase "first execution failed" - the byte-identical target is delivered in an extra block after
+	// Early-1 blocks of the history's prefix, where its preconditions do not hold yet (it must return a non-zero
+	// code there, else the case is skipped); the rest of the prefix follows, then the same bytes are submitted
+	// again in the state in which they would succeed
+	Early int `json:",omitempty"`
 }
 
 type c05Res struct {
@@ -250,6 +255,42 @@ func reencodings(t *harness.TxSpec) []reenc {
 				c2.SignFn = func(action.RawTx) []action.Signature { return st.Signatures }
 				add("memo-number-respelled:"+strings.TrimSuffix(m, t.Memo)+"n", "unsigned-field", c2.Bytes())
 			}
+			// the payload document itself is covered by the signature only through the fields extracted from
+			// it: spellings of an EMPTY value that survive a decode/encode round trip of the payload struct
+			// (nil vs. empty slice / pointer: null, "", [], {}), for every key of the payload
+			var pl map[string]json.RawMessage
+			if json.Unmarshal(t.Data, &pl) == nil {
+				empties := []string{`null`, `""`, `[]`, `{}`}
+				var pks []string
+				for k := range pl {
+					pks = append(pks, k)
+				}
+				sort.Strings(pks)
+				for _, k := range pks {
+					cur := strings.TrimSpace(string(pl[k]))
+					isEmpty := false
+					for _, e := range empties {
+						isEmpty = isEmpty || cur == e
+					}
+					if !isEmpty {
+						continue
+					}
+					for _, e := range empties {
+						if e == cur {
+							continue
+						}
+						cp := map[string]json.RawMessage{}
+						for kk, vv := range pl {
+							cp[kk] = vv
+						}
+						cp[k] = json.RawMessage(e)
+						c3 := *t
+						c3.Data = rebuildInOrder(t.Data, cp)
+						c3.SignFn = func(action.RawTx) []action.Signature { return st.Signatures }
+						add("payload-empty-value-respelled:"+k+"="+e, "unsigned-field", c3.Bytes())
+					}
+				}
+			}
 		}
 	}
 	return out
@@ -363,6 +404,9 @@ func c05Exec(j c05Job) c05Res {
 			return c05Res{Skip: "re-encoding is not admitted even before the original was executed: " + tail(chk.Log, 100)}
 		}
 	}
+	if j.Early > 0 {
+		return c05EarlyFailed(j, orig)
+	}
 	// (2) execute T, wait, resubmit
 	first, second := orig, wire
 	run := func(resubmit bool) (digests []string, out c05Res, err error) {
@@ -464,6 +508,103 @@ func c05Exec(j c05Job) c05Res {
 	return out
 }
 
+// c05EarlyFailed: the transaction was executed in a block and FAILED there (a transaction that was admitted by
+// a mempool check and met another state in its block); the same bytes come again when they would succeed.
+// (Added after a seeded change - DeliverTx answering from the index only if the recorded result was a success -
+// escaped the phases in which the first execution always succeeds.)
+func c05EarlyFailed(j c05Job, orig []byte) c05Res {
+	run := func(resubmit bool) (digests []string, out c05Res, err error) {
+		hh, _ := buildHist(j.Scn, 0)
+		x, err := harness.StartRun(hh.W)
+		if err != nil {
+			return nil, out, err
+		}
+		defer x.Close()
+		prefix := noCheck(hh.Blocks[:hh.Target])
+		k := j.Early - 1
+		if k > len(prefix) {
+			out.Skip = "no such prefix position"
+			return nil, out, nil
+		}
+		for _, b := range prefix[:k] {
+			if _, err := x.Block(b); err != nil {
+				return nil, out, err
+			}
+		}
+		fb, err := x.Block(harness.BlockSpec{Raw: [][]byte{orig}, NoCheck: true})
+		if err != nil || fb == nil || len(fb.Txs) != 1 {
+			return nil, out, fmt.Errorf("early delivery: %v", err)
+		}
+		out.FirstCode = fb.Txs[0].Code
+		if out.FirstCode == 0 {
+			out.Skip = "the early delivery succeeded (nothing failed first)"
+			return nil, out, nil
+		}
+		for _, b := range prefix[k:] {
+			if _, err := x.Block(b); err != nil {
+				out.Skip = "the rest of the prefix does not run after the extra block"
+				return nil, out, nil
+			}
+		}
+		switch {
+		case !resubmit:
+			r, err := x.BlockAt(harness.BlockSpec{}, true, nil)
+			if err != nil {
+				return nil, out, err
+			}
+			digests = append(digests, r.Digest)
+		case j.Path == "check":
+			chk := x.R.CheckTx(orig)
+			out.Code, out.Log = chk.Code, tail(chk.Log, 120)
+			return nil, out, nil
+		default:
+			r, err := x.BlockAt(harness.BlockSpec{Raw: [][]byte{orig}, NoCheck: true}, true, nil)
+			if err != nil || r == nil {
+				return nil, out, fmt.Errorf("block with the resubmission: %v", err)
+			}
+			if len(r.Txs) == 1 {
+				out.Code, out.Log = r.Txs[0].Code, tail(r.Txs[0].Log, 120)
+			}
+			digests = append(digests, r.Digest)
+		}
+		for n := 0; n < 2; n++ {
+			r, err := x.BlockAt(harness.BlockSpec{}, true, nil)
+			if err != nil {
+				return digests, out, nil
+			}
+			digests = append(digests, r.Digest)
+		}
+		return digests, out, nil
+	}
+	got, out, err := run(true)
+	if err != nil {
+		return c05Res{Err: err.Error()}
+	}
+	if out.Skip != "" {
+		return out
+	}
+	out.First = "failed-early"
+	if j.Path == "check" {
+		if out.Code == 0 {
+			out.Replayed = true
+			out.Detail = fmt.Sprintf("delivered once with code %d, then CheckTx accepted the same bytes", out.FirstCode)
+		}
+		return out
+	}
+	twin, tout, err := run(false)
+	if err != nil || tout.Skip != "" {
+		return c05Res{Err: fmt.Sprintf("twin: %v %s", err, tout.Skip)}
+	}
+	for i := range twin {
+		if i >= len(got) || got[i] != twin[i] {
+			out.Replayed = true
+			out.Detail = fmt.Sprintf("delivered once with code %d; delivered again later (code %d) the state after block +%d differs from the twin without the second delivery", out.FirstCode, out.Code, i)
+			break
+		}
+	}
+	return out
+}
+
 func c05(args []string) int {
 	if explore.IsWorker("C05") {
 		return workerMain(func(raw json.RawMessage) interface{} {
@@ -517,6 +658,11 @@ func c05(args []string) int {
 			continue
 		}
 		kinds[sc.Kind] = true
+		for k := 1; k <= h.Target; k++ {
+			for _, path := range []string{"check", "deliver"} {
+				jobList = append(jobList, c05Job{Scn: sc.ID(), Op: 0, Name: "identical", Delay: 0, Path: path, Early: k})
+			}
+		}
 		for _, mode := range []string{"plain", "prehash"} {
 			base := h.Blocks[h.Target].Txs[0]
 			if mode == "prehash" && (base.SignFn != nil || len(base.Signers) == 0 || base.Signers[0].Pub.KeyType != keys.ED25519) {
@@ -546,7 +692,7 @@ func c05(args []string) int {
 	for i := range jobList {
 		jobs[i] = jobList[i]
 	}
-	var done, harnessErr, skippedOps, rejected, replayed int
+	var done, harnessErr, skippedOps, rejected, replayed, earlyFailed int
 	var errSamples []string
 	distinct := map[string]bool{}
 	skipReasons := map[string]int{}
@@ -575,7 +721,10 @@ func c05(args []string) int {
 			skipReasons[k]++
 			return
 		}
-		distinct[fmt.Sprintf("%s|%s|%d|%s|%d|%s", j.Scn, j.Name, j.Delay, j.Path, j.Lag, j.Sig)] = true
+		distinct[fmt.Sprintf("%s|%s|%d|%s|%d|%s|%d", j.Scn, j.Name, j.Delay, j.Path, j.Lag, j.Sig, j.Early)] = true
+		if j.Early > 0 {
+			earlyFailed++
+		}
 		if done%97 == 0 {
 			rep.Sample(map[string]interface{}{"scenario": j.Scn, "reencoding": j.Name, "resubmitted_after_blocks": j.Delay, "path": j.Path, "index_lag": j.Lag, "code": r.Code, "log": r.Log, "took_effect_again": r.Replayed})
 		}
@@ -610,6 +759,7 @@ func c05(args []string) int {
 	rep.Set("resubmissions_without_effect", rejected)
 	rep.Set("resubmissions_that_took_effect", replayed)
 	rep.Set("reencodings_skipped", skippedOps)
+	rep.Set("first_execution_failed_cases", earlyFailed)
 	rep.Set("skip_reasons", skipReasons)
 	rep.Set("harness_errors", harnessErr)
 	rep.Set("harness_error_samples", errSamples)
